@@ -7,6 +7,7 @@ import (
 	"github.com/cosmos/cosmos-proto/internal/zzverif/enum"
 	"github.com/cosmos/cosmos-proto/internal/zzverif/hz"
 	"google.golang.org/protobuf/proto"
+	"google.golang.org/protobuf/reflect/protoreflect"
 )
 
 // build returns (dyn reference value, generated struct holding the same value, canonical string).
@@ -33,12 +34,95 @@ func modes(replayDet *bool) []bool {
 	return []bool{false, true}
 }
 
+// manySiblings: more nested messages in ONE parent than the decoder's recursion budget (10000) - per message-list /
+// message-map field, and spread over all of them together. A budget is spent per nesting level, not per occurrence.
+func manySiblings(h *hz.H, sp *enum.Space, b bounds) {
+	fs := sp.MD.Fields()
+	var holders []protoreflect.FieldDescriptor
+	for i := 0; i < fs.Len(); i++ {
+		fd := fs.Get(i)
+		if fd.IsList() && fd.Kind() == protoreflect.MessageKind || fd.IsMap() && fd.MapValue().Kind() == protoreflect.MessageKind && fd.MapKey().Kind() != protoreflect.BoolKind {
+			holders = append(holders, fd)
+		}
+	}
+	if len(holders) == 0 {
+		return
+	}
+	fill := func(d protoreflect.Message, fd protoreflect.FieldDescriptor, n int) {
+		if fd.IsList() {
+			l := d.Mutable(fd).List()
+			for i := 0; i < n; i++ {
+				l.Append(l.NewElement())
+			}
+			return
+		}
+		mp := d.Mutable(fd).Map()
+		for i := 0; i < n; i++ {
+			var k protoreflect.Value
+			switch fd.MapKey().Kind() {
+			case protoreflect.StringKind:
+				k = protoreflect.ValueOfString(fmt.Sprint(i))
+			case protoreflect.Int32Kind, protoreflect.Sint32Kind, protoreflect.Sfixed32Kind:
+				k = protoreflect.ValueOfInt32(int32(i))
+			case protoreflect.Int64Kind, protoreflect.Sint64Kind, protoreflect.Sfixed64Kind:
+				k = protoreflect.ValueOfInt64(int64(i))
+			case protoreflect.Uint32Kind, protoreflect.Fixed32Kind:
+				k = protoreflect.ValueOfUint32(uint32(i))
+			default:
+				k = protoreflect.ValueOfUint64(uint64(i))
+			}
+			mp.Set(k.MapKey(), mp.NewValue())
+		}
+	}
+	type variant struct {
+		label string
+		d     protoreflect.Message
+	}
+	var vs []variant
+	for _, fd := range holders {
+		d := enum.NewDyn(sp.MD)
+		fill(d, fd, 10001)
+		vs = append(vs, variant{fmt.Sprintf("%s=10001 empty messages", fd.Name()), d})
+	}
+	if len(holders) > 1 {
+		d := enum.NewDyn(sp.MD)
+		for _, fd := range holders {
+			fill(d, fd, 10001/len(holders)+1)
+		}
+		vs = append(vs, variant{fmt.Sprintf("%d nested messages spread over %d fields", (10001/len(holders)+1)*len(holders), len(holders)), d})
+	}
+	for _, v := range vs {
+		vc := mkCase(sp, nil, b, true, "many-siblings")
+		key := fmt.Sprintf("C01/many-sibling-messages@%s", sp.MD.FullName())
+		h.Eval(true, hz.Hash("C01many", string(sp.MD.FullName()), v.label))
+		g := enum.BuildGo(v.d)
+		var enc []byte
+		var err, uerr error
+		g2 := enum.NewGo(sp.MD)
+		if p := hz.Catch(func() {
+			enc, err = proto.MarshalOptions{Deterministic: true}.Marshal(g)
+			if err == nil {
+				uerr = proto.Unmarshal(enc, g2)
+			}
+		}); p != nil || err != nil || uerr != nil {
+			h.Violate(key, fmt.Sprintf("%s{%s}: marshal err=%v, unmarshal of its own encoding err=%v, panic=%v (nesting depth is 1: the recursion limit does not apply)", sp.MD.FullName(), v.label, err, uerr, p), vc)
+			continue
+		}
+		if enum.Canon(enum.Slow(g2), true) != enum.Canon(v.d, false) {
+			h.Violate(key, fmt.Sprintf("%s{%s}: the round trip changed the value", sp.MD.FullName(), v.label), vc)
+		}
+	}
+}
+
 func evalC01(h *hz.H, sp *enum.Space, c enum.Case, b bounds, replayDet *bool, aux string) {
 	d, g, canon, ok := build(h, sp, c)
 	if !ok {
 		return
 	}
 	_ = d
+	if len(c) == 0 && (replayDet == nil || aux == "many-siblings") {
+		manySiblings(h, sp, b)
+	}
 	for _, det := range modes(replayDet) {
 		var enc []byte
 		var err error
